@@ -27,8 +27,8 @@ from vf.gen import omkm_model as G
 from vf.ref import cti as C
 
 ID = 'C07'
-N = {'quick': 1500, 'thorough': 40000}
-WEIGHTS = {'model': 12, 'history': 38, 'reactor': 50}
+N = {'quick': 2200, 'thorough': 40000}
+WEIGHTS = {'model': 20, 'history': 35, 'reactor': 45}
 NT_RULE = ('case kinds: model (units x 1-4 phases x 2-40 Nasa/Nasa9/Shomate species x 0-40 surface reactions '
            'x BEPs x lateral interactions, phases populated at construction / through organize_phases / '
            'incrementally), history (1-4 coexisting phase objects, 3-14 species operations), reactor '
